@@ -5,6 +5,11 @@
 #include <stdio.h>
 #include <stdlib.h>
 #include <string.h>
+#include <fcntl.h>
+#include <unistd.h>
+/* The ghost stdio model (stubs/gfile.c) replaces fread/fwrite/fclose/... in the replay binary as well, so this
+ * runtime reads its input with open/read/close and reports with dprintf (neither goes through those symbols). */
+#define fprintf(stream, ...) dprintf(2, __VA_ARGS__)
 
 typedef struct {
     char               file[96];
@@ -41,37 +46,53 @@ static char const* base(char const* f) {
 }
 
 static void load(char const* path) {
-    FILE* f = fopen(path, "r");
-    char  buf[1024];
-    if (!f) {
+    int    fd = open(path, O_RDONLY);
+    char*  all = NULL;
+    size_t cap = 0, len = 0;
+    char*  buf;
+    if (fd < 0) {
         fprintf(stderr, "replay: cannot open %s\n", path);
         exit(2);
     }
-    while (fgets(buf, sizeof buf, f)) {
-        char *c1 = strchr(buf, ':'), *c2, *eq;
-        if (!c1)
-            continue;
-        c2 = strchr(c1 + 1, ':');
-        if (!c2)
-            continue;
-        eq = strrchr(buf, '=');
-        if (!eq || eq < c2)
-            continue;
-        entries = realloc(entries, (n_entries + 1) * sizeof(entry_t));
-        entry_t* e = &entries[n_entries++];
-        memset(e, 0, sizeof *e);
-        *c1 = 0;
-        *c2 = 0;
-        *eq = 0;
-        snprintf(e->file, sizeof e->file, "%s", buf);
-        e->line = atoi(c1 + 1);
-        norm(e->lhs, c2 + 1, sizeof e->lhs);
-        for (char* p = eq + 1; *p == '0' || *p == '1'; p++) {
-            e->bits = (e->bits << 1) | (unsigned)(*p - '0');
-            e->nbits++;
+    for (;;) {
+        ssize_t r;
+        if (len + 65536 + 1 > cap) {
+            cap = (cap ? cap * 2 : 1 << 20);
+            all = realloc(all, cap);
         }
+        r = read(fd, all + len, 65536);
+        if (r <= 0)
+            break;
+        len += (size_t)r;
     }
-    fclose(f);
+    close(fd);
+    all[len] = 0;
+    for (buf = all; buf && *buf;) {
+        char* nl = strchr(buf, '\n');
+        char *c1, *c2, *eq, *next = nl ? nl + 1 : NULL;
+        if (nl)
+            *nl = 0;
+        c1 = strchr(buf, ':');
+        c2 = c1 ? strchr(c1 + 1, ':') : NULL;
+        eq = strrchr(buf, '=');
+        if (c1 && c2 && eq && eq > c2) {
+            entries = realloc(entries, (n_entries + 1) * sizeof(entry_t));
+            entry_t* e = &entries[n_entries++];
+            memset(e, 0, sizeof *e);
+            *c1 = 0;
+            *c2 = 0;
+            *eq = 0;
+            snprintf(e->file, sizeof e->file, "%s", buf);
+            e->line = atoi(c1 + 1);
+            norm(e->lhs, c2 + 1, sizeof e->lhs);
+            for (char* p = eq + 1; *p == '0' || *p == '1'; p++) {
+                e->bits = (e->bits << 1) | (unsigned)(*p - '0');
+                e->nbits++;
+            }
+        }
+        buf = next;
+    }
+    free(all);
 }
 
 static entry_t* find(char const* lhs, char const* file, int line) {
